@@ -311,8 +311,10 @@ def r2(ctx):
     # attribute words
     src = ctx.src()
     words = {}
-    for fname in ("asn_attribute", "asn_attribute_tag", "asn_attribute_extensible_after"):
-        for _, f in src.fns(path=GEN, name=fname):
+    # every helper of the attribute printer (`asn_attribute`, `asn_attribute_tag`, .. and whatever a refactoring splits off them)
+    for _, f in src.fns(path=GEN):
+        fname = f["name"]
+        if fname.startswith("asn_attribute") and fname != "asn_attribute_type" and "RustCodeGenerator" in (f.get("impl") or ""):
             for s in f["strings"]:
                 if s["ctx"].startswith("macro:format"):
                     m = re.match(r"#?\[?([a-z_]+)\(", s["s"])
